@@ -1634,7 +1634,7 @@ def _common_unit(ctx, repo):
     """C16.t - numbers written next to a unit are magnitudes in that unit."""
     ctx.decided.append('C16.t sweep writer: where one unit is written for several unit-carrying values (unit.to_proto(<msg>.unit)), every number stored into the other fields of that message '
                        'in the same branch is the magnitude in that unit (<value>[unit]), not in the value\'s own unit')
-    ctx.rule('C16.t', 'one unit for all numbers: in cirq_google.api.v2.sweeps, for every `U.to_proto(M.unit)` the stores into float / double fields of M in the same branch (assignments and '
+    ctx.rule('C16.t', 'one unit for all numbers: in cirq_google.api.v2.sweeps, for every `U.to_proto(M.unit)` the stores into float / double fields of M that can run together with it (assignments and '
              '.extend(...) of generator elements) are subscripts `<expr>[U]`; `.value` (the magnitude in the value\'s own unit) or a bare unit-carrying value would be read back in the '
              'wrong unit when start and stop (or the points) are written in different units', floor=4, style='WR')
     m = repo.module('cirq-google/cirq_google/api/v2/sweeps.py')
@@ -1642,24 +1642,28 @@ def _common_unit(ctx, repo):
     n = 0
     for fn in [f for f in ast.walk(m.tree) if isinstance(f, ast.FunctionDef)]:
         for c in ast.walk(fn):
-            if not (isinstance(c, ast.Call) and isinstance(c.func, ast.Attribute) and c.func.attr == 'to_proto' and isinstance(c.func.value, ast.Name) and len(c.args) == 1
+            if not (isinstance(c, ast.Call) and isinstance(c.func, ast.Attribute) and c.func.attr == 'to_proto' and len(c.args) == 1
                     and isinstance(c.args[0], ast.Attribute) and c.args[0].attr == 'unit'):
                 continue
-            U = c.func.value.id
+            U = ast.unparse(c.func.value)
             M = ast.unparse(c.args[0].value)
-            # the block that holds the to_proto statement
+            # statements that cannot run together with the unit write: the other arm of an `if` that encloses it
             st = c
             while st in par and not isinstance(st, ast.stmt):
                 st = par[st]
-            owner = par.get(st)
-            blk = None
-            for fld in ('body', 'orelse'):
-                b = getattr(owner, fld, None)
-                if isinstance(b, list) and st in b:
-                    blk = b
-            if blk is None:
-                raise AnalysisError(f'C16.t: block of `{ast.unparse(c)}` not found')
-            for s_ in [x for b_ in blk for x in ast.walk(b_)]:
+            excluded = set()
+            cur = st
+            while cur in par and cur is not fn:
+                pp = par[cur]
+                if isinstance(pp, ast.If):
+                    other = pp.orelse if cur in pp.body else pp.body
+                    for o_ in other:
+                        for x in ast.walk(o_):
+                            excluded.add(id(x))
+                cur = pp
+            for s_ in ast.walk(fn):
+                if id(s_) in excluded:
+                    continue
                 val = tgt = None
                 if isinstance(s_, ast.Assign) and len(s_.targets) == 1 and isinstance(s_.targets[0], ast.Attribute) and ast.unparse(s_.targets[0].value) == M:
                     tgt, val = s_.targets[0].attr, s_.value
@@ -1670,9 +1674,28 @@ def _common_unit(ctx, repo):
                 if tgt is None or not ('point' in tgt or 'value' in tgt) or tgt.startswith('num_'):
                     continue
                 n += 1
-                ok = isinstance(val, ast.Subscript) and isinstance(val.slice, ast.Name) and val.slice.id == U
+
+                def in_unit(e, depth=0):
+                    if isinstance(e, ast.Subscript) and ast.unparse(e.slice) == U:
+                        return True
+                    if isinstance(e, ast.Name) and depth < 3:
+                        # a named local: every definition of it (element-wise for tuple assignments) is a magnitude in the unit
+                        ds = []
+                        for a_ in ast.walk(fn):
+                            if isinstance(a_, ast.Assign) and len(a_.targets) == 1:
+                                t_ = a_.targets[0]
+                                if isinstance(t_, ast.Name) and t_.id == e.id:
+                                    ds.append(a_.value)
+                                elif isinstance(t_, ast.Tuple) and isinstance(a_.value, ast.Tuple) and len(t_.elts) == len(a_.value.elts):
+                                    for te, ve in zip(t_.elts, a_.value.elts):
+                                        if isinstance(te, ast.Name) and te.id == e.id:
+                                            ds.append(ve)
+                        ds = [d_ for d_ in ds if id(d_) not in excluded]
+                        return bool(ds) and all(in_unit(d_, depth + 1) for d_ in ds)
+                    return False
+                ok = in_unit(val)
                 ctx.ob('C16.t', f'{m.name}.{fn.name}:{M}.{tgt}', ok, '' if ok else
-                       f'`{ast.unparse(s_)[:90]}` is written next to the unit `{U}` but is not the magnitude in that unit (`<value>[{U}]`): a value given in another unit '
+                       f'`{ast.unparse(s_)[:90]}` can run together with `{ast.unparse(c)[:50]}` but is not the magnitude in that unit (`<value>[{U}]`): a value given in another unit '
                        '(stop=2*us with start=500*ns) is read back in the wrong unit', m.rel, s_.lineno)
     if n == 0:
         raise AnalysisError('C16.t: no number written next to a unit found')
